@@ -790,9 +790,9 @@ class Model(Object):
                 forward = reaction.forward_variable
                 reverse = reaction.reverse_variable
 
-                if context:
-                    obj_coef = reaction.objective_coefficient
+                obj_coef = reaction.objective_coefficient
 
+                if context:
                     if obj_coef != 0:
                         context(
                             partial(
@@ -805,6 +805,11 @@ class Model(Object):
                     context(partial(setattr, reaction, "_model", self))
                     context(partial(self.reactions.add, reaction))
 
+                if obj_coef != 0:
+                    # otherwise the objective expression keeps the removed variables
+                    self.solver.objective.set_linear_coefficients(
+                        {forward: 0, reverse: 0}
+                    )
                 self.remove_cons_vars([forward, reverse])
                 self.reactions.remove(reaction)
                 reaction._model = None
